@@ -1,4 +1,5 @@
 From Coq Require Import Extraction ExtrOcamlBasic.
-From SV Require Import Model.PostOffice.
+From SV Require Import Model.PostOffice Model.Mailbox Model.MailboxFail Model.C06Run.
 Extraction Language OCaml.
-Extraction "model.ml" run_po whole comb_std.
+Extraction "model.ml" run_po whole comb_std
+  nstep nrun ntrace ninit nenabled all_terminal mk_mbox mk_thread main_outcome nobs outcome_code.
